@@ -1,9 +1,11 @@
 import GoflowModel.Driver.C12
 import GoflowModel.Driver.CQL
 import GoflowModel.Driver.Engine
+import GoflowModel.Driver.Router
+import GoflowModel.Driver.Localize
 open GoflowModel
 
-def handlers : List (List String → Option String) := [Driver.C12.handle, Driver.CQL.handle, Driver.Engine.handle]
+def handlers : List (List String → Option String) := [Driver.C12.handle, Driver.CQL.handle, Driver.Engine.handle, Driver.Router.handle, Driver.Localize.handle]
 
 def step (line : String) : String :=
   let toks := (line.trimAscii.toString.splitOn " ").filter (· ≠ "")
